@@ -31,6 +31,7 @@ type Stress struct {
 	//                  timed: Shutdown DelayUs after the start notification
 	DelayUs     int
 	Restarts    int    // number of start/stop cycles on the same Server value
+	MaxTCP      int    // Server.MaxTCPQueries
 	SecondStart string // timed mode: "" | activate | listen – a second ActivateAndServe / ListenAndServe once started (must fail at once)
 }
 
@@ -43,6 +44,7 @@ func genStress(t *rapid.T) Stress {
 		DelayUs:   rapid.SampledFrom([]int{0, 0, 5, 20, 50, 100, 200, 400, 800, 1500}).Draw(t, "delay"),
 		Restarts:  rapid.SampledFrom([]int{1, 1, 2, 3}).Draw(t, "cycles"),
 	}
+	s.MaxTCP = rapid.SampledFrom([]int{-1, -1, 0, 0, 1, 2, 128}).Draw(t, "maxTCP")
 	if s.Mode == "timed" {
 		s.SecondStart = rapid.SampledFrom([]string{"", "", "activate", "listen"}).Draw(t, "secondStart")
 	}
@@ -86,7 +88,7 @@ func checkStress(s Stress) error {
 		return nil
 	}
 	r := &stressRun{s: s, nonce: newNonce()}
-	srv := &dns.Server{ReadTimeout: time.Hour, IdleTimeout: func() time.Duration { return time.Hour }, Handler: dns.HandlerFunc(r.handler)}
+	srv := &dns.Server{ReadTimeout: time.Hour, IdleTimeout: func() time.Duration { return time.Hour }, Handler: dns.HandlerFunc(r.handler), MaxTCPQueries: s.MaxTCP}
 	overlapAny := false
 	for cycle := 0; cycle < s.Restarts; cycle++ {
 		ov, err := r.cycle(srv, cycle)
